@@ -21,6 +21,7 @@ func init() {
 	vHarnesses["H_C11_allsol"] = H_C11_allsol
 	vHarnesses["H_C19_cursor2"] = H_C19_cursor2
 	vHarnesses["H_C19_cursor3"] = H_C19_cursor3
+	vHarnesses["H_C19_cursor4"] = H_C19_cursor4
 	vHarnesses["H_C19_out"] = H_C19_out
 	vHarnesses["H_C19_read"] = H_C19_read
 	vHarnesses["H_C06_ops"] = H_C06_ops
@@ -220,6 +221,11 @@ func H_C20_load(inst int) {
 func H_C19_cursor2(inst int) {
 	i := newFull()
 	engine.VH_C19(&i.VM, inst, 2)
+}
+
+func H_C19_cursor4(inst int) {
+	i := newFull()
+	engine.VH_C19(&i.VM, inst, 4)
 }
 
 func H_C19_cursor3(inst int) {
